@@ -281,6 +281,14 @@ def make_fuzz_engine(clauses, quick_runs, thorough_runs, quick_procs=8, thorough
             if len(res['violations']) < 2:
                 m = re.search(r'FAIL on (\S+): (.*)', outp)
                 res['violations'].append(dict(property=prop, clause=case['clause'], args=case['args'], cfg=m.group(1) if m else '?', what=(m.group(2) if m else 'fuzz artifact reproduces') + ' [found by libFuzzer]', configs=[os.path.basename(s)[4:-3] for s in use], replay_output=outp, tier=tier, seed=seed))
+        fz_samples = []
+        for i, (d, p) in enumerate(procs[:4]):
+            for f in sorted(glob.glob(os.path.join(d, 'corpus', '*')), key=os.path.getsize, reverse=True)[:2]:
+                r = subprocess.run([env['exe'], 'decode-fuzz', clauses[i % len(clauses)], f, sos[0]], stdout=subprocess.PIPE, text=True)
+                try:
+                    cs = json.loads(r.stdout.strip() or '{}')
+                    if cs: cs['origin'] = 'libFuzzer corpus unit (%d bytes) of process %d' % (os.path.getsize(f), i); fz_samples.append(cs)
+                except Exception: pass
         ev_cases = 0; ev_nt = 0
         for d, p in procs:
             try: a, b, c_ = open(os.path.join(d, 'stats')).read().split(); ev_cases += int(a); ev_nt += int(b)
@@ -289,7 +297,7 @@ def make_fuzz_engine(clauses, quick_runs, thorough_runs, quick_procs=8, thorough
             distinct_nontrivial=max(c_[2] for c_ in cov) if cov else 0, exhaustive=False,
             rule='libFuzzer drives the word-stream decoders of clauses %s (one clause per process, round robin; in this mode half of the fixed_t operands are taken verbatim from the input words so that compare tracing can plant the constants the library compares against) against the library compiled with clang -O1, ASan, the UBSan checks (stock runtime observed through __ubsan_on_report) and coverage instrumentation; %d processes x %d runs, half seeded from /verif/corpus and half from an empty corpus; only crash artifacts count, each is decoded back into (clause, arguments) and must reproduce 3x through the ordinary replay path; distinct non-trivial cases are counted conservatively as the size of the largest final corpus (inputs that each reached new coverage or value-profile features)' % (', '.join(clauses), nproc, runs),
             processes=nproc, runs_per_process=runs, final_cov_ft_corpus=cov, artifacts=len(arts), artifacts_not_reproduced=notrepro, cases_judged_by_oracle=ev_cases, nontrivial_cases=ev_nt, wall_s=round(time.time() - t0, 1),
-            samples=[dict(note='corpus units are word streams; decoded cases of this engine look like those of clause ' + clauses[0])])
+            samples=fz_samples)
         return res
     return engine
 FUZZ_PLAN = {   # property: (clauses, quick runs per process, thorough runs per process)
